@@ -57,13 +57,21 @@ Proof.
   rewrite (floor_veq _ _ V2). reflexivity.
 Qed.
 
-(** ** SizeV2 / SSizeV2 round trip for representable values *)
-Lemma sizev2_roundtrip_repr n :
-  n < 2 ^ 64 -> repr53 n = true -> unmarshal_v2 false (dec n) = Some (Z.of_N n).
+(** ** SizeV2 / SSizeV2 round trip: every value (plain integers take the strconv path) *)
+Lemma sizev2_roundtrip n :
+  n < 2 ^ 64 -> unmarshal_v2 false (dec n) = Some (Z.of_N n).
 Proof.
-  intros Hn Hr. unfold unmarshal_v2.
+  intro Hn. unfold unmarshal_v2, parse_bytes_unsigned. rewrite parse_uint3_dec.
+  destruct (n <? 2 ^ 64) eqn:E; [reflexivity|lia].
+Qed.
+
+(** The float path alone (the code before the repair) is exact only on representable values. *)
+Lemma float_path_repr n :
+  n < 2 ^ 64 -> repr53 n = true -> parse_bytes (dec n) = Some n.
+Proof.
+  intros Hn Hr.
   pose proof (parse_bytes_exact n [] 1 I eq_refl ltac:(lia) Hr eq_refl) as H.
-  rewrite N.mul_1_r, app_nil_r in H. rewrite H by assumption. reflexivity.
+  rewrite N.mul_1_r, app_nil_r in H. apply H; assumption.
 Qed.
 
 Lemma space_not_digit' c : is_digit c = true -> is_space c = false.
@@ -102,31 +110,45 @@ Proof.
   apply rstrip_digits, space_not_digit', Hc'.
 Qed.
 
-Lemma ssizev2_roundtrip_repr z :
-  (- 2 ^ 63 <= z < 2 ^ 63)%Z -> repr53 (Z.to_N (Z.abs z)) = true ->
-  unmarshal_v2 true (dec_z z) = Some z.
+Lemma parse_bytes_unsigned_dec n :
+  parse_bytes_unsigned (dec n) = if n <? 2 ^ 64 then Some n else None.
 Proof.
-  intros Hz Hr. unfold unmarshal_v2, parse_bytes_signed, dec_z.
+  unfold parse_bytes_unsigned. rewrite parse_uint3_dec. destruct (n <? 2 ^ 64); reflexivity.
+Qed.
+
+Lemma ssizev2_roundtrip z :
+  (- 2 ^ 63 <= z < 2 ^ 63)%Z -> unmarshal_v2 true (dec_z z) = Some z.
+Proof.
+  intros Hz. unfold unmarshal_v2, parse_bytes_signed, dec_z.
   change (2 ^ 63)%Z with 9223372036854775808%Z in *.
   destruct (z <? 0)%Z eqn:Ez.
   - rewrite trim_neg_dec. change (45 =? 45) with true. cbv iota.
-    replace (Z.to_N (Z.abs z)) with (Z.to_N (- z)) in Hr by lia.
-    pose proof (sizev2_roundtrip_repr (Z.to_N (- z))
-                  ltac:(change (2 ^ 64) with 18446744073709551616; lia) Hr) as H.
-    unfold unmarshal_v2 in H. destruct (parse_bytes (dec (Z.to_N (- z)))) as [v|]; [|discriminate].
-    cbn in H. injection H as H.
+    rewrite parse_bytes_unsigned_dec.
+    change (2 ^ 64) with 18446744073709551616.
     change (2 ^ 63) with 9223372036854775808. change (2 ^ 63)%Z with 9223372036854775808%Z.
     split_ifs; try lia; f_equal; lia.
   - rewrite trim_dec.
     destruct (dec_head_digit (Z.to_N z)) as [c [l [E Hc]]]. rewrite E.
     assert (H45 : (c =? 45) = false) by (unfold is_digit in Hc; lia). rewrite H45, <- E.
-    replace (Z.to_N (Z.abs z)) with (Z.to_N z) in Hr by lia.
-    pose proof (sizev2_roundtrip_repr (Z.to_N z)
-                  ltac:(change (2 ^ 64) with 18446744073709551616; lia) Hr) as H.
-    unfold unmarshal_v2 in H. destruct (parse_bytes (dec (Z.to_N z))) as [v|]; [|discriminate].
-    cbn in H. injection H as H.
-    change (2 ^ 63) with 9223372036854775808.
+    rewrite parse_bytes_unsigned_dec.
+    change (2 ^ 64) with 18446744073709551616. change (2 ^ 63) with 9223372036854775808.
     split_ifs; try lia; f_equal; lia.
+Qed.
+
+(** Signed overflow of a plain integer text is rejected, never wrapped or rounded. *)
+Lemma ssizev2_plain_overflow_rejected n :
+  2 ^ 63 < n -> unmarshal_v2 true (45 :: dec n) = None /\ unmarshal_v2 true (dec n) = None.
+Proof.
+  intro Hn. unfold unmarshal_v2, parse_bytes_signed.
+  change (2 ^ 63) with 9223372036854775808 in *. split.
+  - rewrite trim_neg_dec. change (45 =? 45) with true. cbv iota.
+    rewrite parse_bytes_unsigned_dec. change (2 ^ 64) with 18446744073709551616.
+    change (2 ^ 63) with 9223372036854775808. split_ifs; try lia; reflexivity.
+  - rewrite trim_dec.
+    destruct (dec_head_digit n) as [c [l [E Hc]]]. rewrite E.
+    assert (H45 : (c =? 45) = false) by (unfold is_digit in Hc; lia). rewrite H45, <- E.
+    rewrite parse_bytes_unsigned_dec. change (2 ^ 64) with 18446744073709551616.
+    change (2 ^ 63) with 9223372036854775808. split_ifs; try lia; reflexivity.
 Qed.
 
 (** ** Units as named (humanize table), exact while the product fits 53 bits *)
@@ -139,7 +161,7 @@ Definition unit_entry_ok (e : list N * N) : bool :=
 Lemma size_table_ok : forallb unit_entry_ok size_table = true.
 Proof. vm_compute. reflexivity. Qed.
 
-Lemma named_units_exact n name m :
+Lemma named_units_exact_float n name m :
   In (name, m) size_table -> n * m < 2 ^ 53 ->
   parse_bytes (dec n ++ name) = Some (n * m).
 Proof.
@@ -160,28 +182,59 @@ Proof.
   - eapply N.lt_trans; [exact Hlt|]. apply N.pow_lt_mono_r; lia.
 Qed.
 
-(** ** Witnesses of loss above 2^53 *)
-Lemma sizev2_witness :
-  unmarshal TV2 (marshal TV2 9007199254740993) = Some 9007199254740992%Z.
+Lemma named_units_exact n name m :
+  In (name, m) size_table -> n * m < 2 ^ 53 ->
+  parse_bytes_unsigned (dec n ++ name) = Some (n * m).
+Proof.
+  intros Hin Hlt.
+  pose proof size_table_ok as Hok. rewrite forallb_forall in Hok.
+  specialize (Hok _ Hin). unfold unit_entry_ok in Hok.
+  apply andb_true_iff in Hok as [Hok Hr]. apply andb_true_iff in Hok as [Hok Hm].
+  apply andb_true_iff in Hok as [Hs Hl]. apply N.ltb_lt in Hm.
+  assert (H53 : 2 ^ 53 < 2 ^ 64) by (apply N.pow_lt_mono_r; lia).
+  assert (Hn : n < 2 ^ 64) by nia.
+  destruct name as [|c r].
+  - (* no unit: the exact strconv path; the table says 1 *)
+    rewrite app_nil_r, parse_bytes_unsigned_dec.
+    destruct (n <? 2 ^ 64) eqn:E; [|lia].
+    pose proof (named_units_exact_float n [] m Hin Hlt) as Hf.
+    rewrite app_nil_r, float_path_repr in Hf by (try apply repr53_small; nia). congruence.
+  - unfold parse_bytes_unsigned.
+    assert (Hc : is_digit c = false).
+    { destruct (is_digit c) eqn:Ed; [|reflexivity].
+      rewrite (digit_numchar c Ed) in Hs. discriminate. }
+    rewrite (parse_uint3_dec_then n c r Hn Hc).
+    apply named_units_exact_float; assumption.
+Qed.
+
+(** ** Witnesses *)
+(** the float path alone (pre-repair behaviour of SizeV2 on plain integers) *)
+Lemma float_path_witness :
+  parse_bytes (dec 9007199254740993) = Some 9007199254740992.
 Proof. vm_compute. reflexivity. Qed.
 
-Lemma ssizev2_witness :
-  unmarshal TSV2 (marshal TSV2 9223372036854775807) = None.
-Proof. vm_compute. reflexivity. Qed.
+(** residual: number + unit still goes through float64 *)
+Lemma unit_product_witness :
+  unmarshal TV2 (dec 17179869183 ++ [103]) = Some 17179869183000000512%Z
+  /\ 17179869183 * 10 ^ 9 < 2 ^ 64.
+Proof. split; vm_compute; reflexivity. Qed.
 
 Lemma sizev2_toml_witness :
   unmarshal_toml TV2 9223372036854775808 (marshal TV2 9223372036854775808) = None
-  /\ repr53 9223372036854775808 = true.
+  /\ unmarshal TV2 (marshal TV2 9223372036854775808) = Some 9223372036854775808%Z.
 Proof. split; vm_compute; reflexivity. Qed.
 
-Lemma ssizev2_overflow_accepted_witness :
-  unmarshal TSV2 (45 :: dec 9223372036854775809) = Some (- 9223372036854775808)%Z.
-Proof. vm_compute. reflexivity. Qed.
-
-(** ** A bare number at or above 2^64 is rejected by the float path (never wrapped) *)
+(** ** A bare number at or above 2^64 is rejected (never wrapped) *)
 Lemma sizev2_overflow_rejected n : 2 ^ 64 <= n -> unmarshal_v2 false (dec n) = None.
 Proof.
-  intro Hn. unfold unmarshal_v2, parse_bytes.
+  intro Hn. unfold unmarshal_v2. rewrite parse_bytes_unsigned_dec.
+  destruct (n <? 2 ^ 64) eqn:E; [lia|reflexivity].
+Qed.
+
+(** ... and so does the float path on its own (rounding is monotone at 2^64). *)
+Lemma float_path_overflow_rejected n : 2 ^ 64 <= n -> parse_bytes (dec n) = None.
+Proof.
+  intro Hn. unfold parse_bytes.
   assert (Hnum : forallb is_numchar (dec n) = true)
     by (eapply forallb_impl; [exact digit_numchar | apply dec_digits]).
   rewrite take_while_all, drop_while_all by exact Hnum.
